@@ -798,6 +798,29 @@ def F45():
     sh = ShareSet.generate_shares(m, 1, 5)
     return len(sh) != 5 or not all(ShareSet.recover_mnemonic([x]) == m for x in sh), "generate_shares(m, 1, 5) returns %d share(s)" % len(sh)
 
+def F46():
+    """p2sh-p2wsh change output: creator attaches the scripts, a second cosigner updates with its key lookup only"""
+    from buidl.hd import HDPrivateKey
+    from buidl.psbt import PSBT, NamedHDPublicKey
+    from buidl.script import RedeemScript, WitnessScript, P2SHScriptPubKey
+    from buidl.tx import Tx, TxIn, TxOut
+    roots = [HDPrivateKey.from_mnemonic("abandon " * 11 + "about", password=bytes([i]), network="testnet") for i in range(2)]
+    nameds = [NamedHDPublicKey.from_hd_priv(r, "m/48'/1'/0'/1'") for r in roots]
+    keys = sorted(n.child(1).child(0).sec() for n in nameds)
+    ws = WitnessScript([0x52, keys[0], keys[1], 0x52, 0xAE])
+    rs = RedeemScript([0, ws.sha256()])
+    tx = Tx(2, [TxIn(bytes(32), 0)], [TxOut(1000, P2SHScriptPubKey(rs.hash160()))], 0, network="testnet")
+    psbt = PSBT.create(tx, pubkey_lookup=nameds[0].bip44_lookup(), redeem_lookup={rs.hash160(): rs}, witness_lookup={ws.sha256(): ws})
+    psbt.update({}, nameds[1].bip44_lookup())
+    out = psbt.psbt_outs[0]
+    try:
+        PSBT.parse(BytesIO(psbt.serialize()), network="testnet")
+        again = "parses"
+    except Exception as e:
+        again = "%s: %s" % (type(e).__name__, str(e)[:50])
+    return out.redeem_script is None or len(out.named_pubs) != 2 or again != "parses", "after the second updater: RedeemScript %s, %d derivation(s), serialised PSBT %s" % (
+        "kept" if out.redeem_script is not None else "LOST", len(out.named_pubs), again)
+
 def K1():
     from buidl.op import op_2rot
     st = [b"1", b"2", b"3", b"4", b"5", b"6"]
